@@ -38,6 +38,7 @@ def strat_models(draw, tier, models=None):
                 shift=draw(st.one_of(gen.dyadic(-30, 30), st.floats(-30, 30).map(lambda x: round(x, 2)))),
                 tuple_syntax=draw(st.booleans()), np_seed=0)
     case['av_order'] = list(draw(st.permutations(alts))) if draw(st.booleans()) else None
+    case['nest_names'] = draw(st.sampled_from(['indexed', 'indexed', 'none', 'same']))
     if model in ('nested', 'nested_mu'):
         case['nests'] = draw(mc.nested_structure(alts))
     elif model in ('cnl', 'cnlmu'):
@@ -67,16 +68,16 @@ def _observe(case):
     ts = case['tuple_syntax'] and model != 'mev' and model != 'logit'
     for a in case['alts']:
         e = mc.model_expression(case, model, ex.Numeric(a), tuple_syntax=ts)
-        res['P'][a] = _num(e.get_value_c(database=database, prepare_ids=True))
+        res['P'][a] = _num(e.get_value_c(database=database, betas=mc.evaluation_betas(case), prepare_ids=True))
         le = mc.model_expression(case, model, ex.Numeric(a), log=True, tuple_syntax=ts)
         try:
-            res['logP'][a] = _num(le.get_value_c(database=database, prepare_ids=True))
+            res['logP'][a] = _num(le.get_value_c(database=database, betas=mc.evaluation_betas(case), prepare_ids=True))
         except RuntimeError as exc:  # log of zero probability may be refused by the engine
             res['logP'][a] = ('raised', str(exc)[:200])
             return res  # the engine is poisoned after an exception: stop here
         if model != 'mev':
             es = mc.model_expression(case, model, ex.Numeric(a), shift=case['shift'], tuple_syntax=ts)
-            res['Pshift'][a] = _num(es.get_value_c(database=database, prepare_ids=True))
+            res['Pshift'][a] = _num(es.get_value_c(database=database, betas=mc.evaluation_betas(case), prepare_ids=True))
     return res
 
 
